@@ -1,1 +1,49 @@
-print("placeholder")
+#!/venv/bin/python
+"""Driver: /venv/bin/python /verif/check.py <ID> [--tier quick|thorough]"""
+import argparse
+import importlib
+import os
+import sys
+import traceback
+
+sys.path.insert(0, os.path.dirname(os.path.abspath(__file__)))
+sys.setrecursionlimit(20000)
+
+from sa.model import AnalysisError  # noqa: E402
+from sa.report import Report, finish  # noqa: E402
+from sa.rules import base  # noqa: E402
+from sa.state import Budget  # noqa: E402
+
+REPO = os.environ.get("SA_REPO", "/repo")
+
+
+def main():
+    ap = argparse.ArgumentParser()
+    ap.add_argument("pid")
+    ap.add_argument("--tier", default=os.environ.get("VERIF_TIER", "quick"))
+    ap.add_argument("--repo", default=REPO)
+    a = ap.parse_args()
+    pid = a.pid.upper()
+    try:
+        mod = importlib.import_module(f"sa.rules.{pid.lower()}")
+        ctx = base.Ctx(a.repo, a.tier)
+        base.set_ctx(ctx)
+        rep = Report(pid, a.tier)
+        mod.check(ctx, rep)
+        meta = getattr(mod, "META", {})
+        rc = finish(rep, level=meta.get("level", "other"), explanation=meta.get("explanation", mod.__doc__ or ""),
+                    assumptions=meta.get("assumptions", ()), trusted=meta.get("trusted", ()))
+        sys.exit(rc)
+    except (AnalysisError, Budget) as e:
+        print(f"ANALYSIS-ERROR property={pid}: {e}")
+        sys.exit(2)
+    except SystemExit:
+        raise
+    except Exception as e:  # a crash of the checker is not a verdict about the code
+        print(f"ANALYSIS-ERROR property={pid}: checker crashed: {type(e).__name__}: {e}")
+        traceback.print_exc()
+        sys.exit(2)
+
+
+if __name__ == "__main__":
+    main()
